@@ -408,10 +408,11 @@ func pkVals(r uRow, s uSchema) []driver.Value {
 }
 
 type uRows struct {
-	cols []string
-	data [][]driver.Value
-	pos  int
-	scan []reflect.Type
+	cols   []string
+	data   [][]driver.Value
+	pos    int
+	scan   []reflect.Type
+	dbType []string
 }
 
 func (r *uRows) Columns() []string { return r.cols }
@@ -426,6 +427,9 @@ func (r *uRows) Next(dest []driver.Value) error {
 }
 func (r *uRows) ColumnTypeScanType(i int) reflect.Type { return r.scan[i] }
 func (r *uRows) ColumnTypeDatabaseTypeName(i int) string {
+	if i < len(r.dbType) {
+		return r.dbType[i]
+	}
 	return "BIGINT"
 }
 
@@ -466,11 +470,14 @@ func (s *uStmt) Query(args []driver.Value) (driver.Rows, error) {
 		}
 		out := &uRows{cols: d.schema.cols}
 		for k := range d.schema.cols {
+			out.dbType = append(out.dbType, map[string]string{"": "BIGINT", "nullint": "BIGINT", "varchar": "VARCHAR", "decimal": "DECIMAL", "float": "FLOAT"}[d.schema.kind(k)])
 			switch {
 			case d.schema.kind(k) == "varchar" || d.schema.kind(k) == "decimal":
 				out.scan = append(out.scan, reflect.TypeOf(sql.RawBytes{}))
 			case d.schema.kind(k) == "nullint":
 				out.scan = append(out.scan, reflect.TypeOf(sql.NullInt64{}))
+			case d.schema.kind(k) == "float":
+				out.scan = append(out.scan, reflect.TypeOf(float32(0))) // FLOAT NOT NULL
 			case d.scanKind == 1 && !d.schema.isPK(k):
 				out.scan = append(out.scan, reflect.TypeOf(int64(0))) // BIGINT NOT NULL
 			case d.scanKind == 2 && !d.schema.isPK(k):
@@ -490,6 +497,10 @@ func (s *uStmt) Query(args []driver.Value) (driver.Rows, error) {
 						// character and decimal data arrive as bytes
 						if v, ok := row[k].(string); ok {
 							row[k] = []byte(v)
+						}
+						// a FLOAT column holds (and hands out) single precision
+						if v, ok := row[k].(float64); ok && d.schema.kind(k) == "float" {
+							row[k] = float32(v)
 						}
 					}
 					if d.scanKind == 2 {
@@ -534,6 +545,8 @@ func uTableMeta(s uSchema) *types.TableMeta {
 			cm.IsNullable = 1
 		case "decimal":
 			cm.ColumnType, cm.DatabaseTypeString, cm.DatabaseType = "decimal", "DECIMAL", int32(types.JDBCTypeDecimal)
+		case "float":
+			cm.ColumnType, cm.DatabaseTypeString, cm.DatabaseType = "float", "FLOAT", int32(types.JDBCTypeReal)
 		}
 		m.Columns[c] = cm
 		if s.isPK(k) {
@@ -586,6 +599,8 @@ func uImage(s uSchema, sqlType types.SQLType, rows [][]driver.Value) *types.Reco
 			switch s.kind(k) {
 			case "varchar":
 				ct = types.JDBCTypeVarchar
+			case "float":
+				ct = types.JDBCTypeReal
 			case "decimal":
 				// the image builder scans DECIMAL into a float64
 				ct = types.JDBCTypeDecimal
@@ -608,7 +623,7 @@ var uSchemas = []uSchema{
 
 // uTyped: a table with the column kinds the integer schemas leave out.
 var uTyped = uSchema{table: "t", cols: []string{"id", "name", "n"}, pk: []int{0}, kinds: []string{"", "varchar", "nullint"}}
-var uTypedDecimal = uSchema{table: "t", cols: []string{"id", "amount"}, pk: []int{0}, kinds: []string{"", "decimal"}}
+var uTypedDecimal = uSchema{table: "t", cols: []string{"id", "amount", "ratio"}, pk: []int{0}, kinds: []string{"", "decimal", "float"}}
 
 type uWorld struct {
 	d      *uDB
